@@ -15,7 +15,7 @@ VERIF = os.path.dirname(os.path.dirname(os.path.dirname(os.path.abspath(__file__
 if os.path.join(VERIF, ".deps") not in sys.path:
     sys.path.append(os.path.join(VERIF, ".deps"))  # jsonschema (needed by polliwog's validate); C19 only
 
-from common import call_impl, coq_bool, coq_list, coq_nat, exn_name, fl, flv, q, qv  # noqa: E402
+from common import EXN, coq_bool, coq_list, coq_nat, exn_name, fl, flv, q, qv  # noqa: E402
 
 ID = "C19"
 N_CASES = {"quick": 360, "thorough": 5000, "search": 3000}
@@ -30,17 +30,34 @@ TRUSTED = ["Coq 8.16.1 kernel, vm_compute for the correspondence evaluation",
            "json (float text round trip), jsonschema 4.26 Draft7Validator, simplejson: trusted, compared with the model's "
            "validator on every corrupted document",
            "schema extractor in tools/props/C19.py (fail closed on unknown keywords)",
-           "coq/corr/K_C19.v: numbers compared at 1e-15 (k/10^d is not a double); coordinates of 53-bit normals within 1e-3 "
-           "of a rounding tie are not judged",
+           "coq/corr/K_C19.v: numbers compared at 1e-15 purely relative (k/10^d is not a double); a full-mantissa coordinate "
+           "within 1e-3 (+1e-15 relative) of a rounding tie is judged by the half-unit bound only, per coordinate; "
+           "coordinates with <= 20 significant bits (incl. real ties) are compared with exact decimal rounding",
            "NumPy np.around = rint(x*10^d)/10^d (pinned by the correspondence on exact inputs incl. ties)"]
 CASE_IMPORTS = [("PW.model", "M_polyline_base"), ("PW.model", "M_plane"), ("PW.model", "M_serialize")]
 ASSUMPTIONS = ["theorems are about exact decimal rounding (round-half-even of x*10^d, divided by 10^d) over the reals",
+               "magnitude bound: np.around multiplies by 10^d first, so 'rounded/serialize succeed within half a unit' is "
+               "claimed (and sampled, up to |x|*10^d ~ 1e307) only for |x| * 10^d < 1.79e308; beyond it binary64 overflows "
+               "and the code emits inf (np.around(1e300, 12) = inf) - outside the real-number model",
+               "closedness is a Python bool or numpy.bool_ (what comparisons on arrays return); other truthy values are "
+               "not generated",
                "the model is of the code WITH fixes/C19-empty-polyline-deserialize.diff and "
                "fixes/C19-plane-rounded-direction-decimals.diff applied"]
 
 
 def kernels():
-    return []
+    return []     # np.around on object arrays needs a rint method: not traceable (see DESIGN 2.3)
+
+
+def _call(f):
+    """run f(); jsonschema's ValidationError is reported as its own class (not the catch-all OtherError), so that an
+    unrelated exception can never pass for a refusal"""
+    try:
+        return f()
+    except Exception as e:  # noqa
+        if type(e).__name__ == "ValidationError" and type(e).__module__.startswith("jsonschema"):
+            return {"raise": "ValidationError", "msg": str(e)[:200]}
+        return {"raise": exn_name(e), "msg": str(e)[:200]}
 
 
 # ---------------------------------------------------------------------------------------------------------
@@ -117,6 +134,19 @@ def _dy20(rng, tier):
     if rng.random() < 0.25:
         m, e = rng.randint(-64, 64), rng.randint(-7, 0)      # short binary fractions: many exact ties (x.5, x.125 ...)
     return float(m) * 2.0 ** e
+
+
+def _full(rng):
+    """a full-mantissa double (x*10^d is NOT exact in binary64) over many magnitudes"""
+    return rng.uniform(-1.0, 1.0) * 10.0 ** rng.randint(-6, 7)
+
+
+def _near_overflow(rng, d):
+    """<= 20 significant bits with |x| * 10^d between 1e295 and 1e307 (just below the binary64 overflow of np.around)"""
+    import math
+    target = 10.0 ** (rng.uniform(295, 307) - d)
+    e = int(math.floor(math.log2(target))) - 19
+    return float(rng.choice([-1, 1]) * rng.randint(2 ** 19, 2 ** 20 - 1)) * 2.0 ** e
 
 
 def _unit(rng):
@@ -198,22 +228,37 @@ def gen_cases(rng, n, tier):
     cases = [{"kind": "schema"}]
     # boundary: the empty polyline at every precision, exact ties
     for d in (0, 3, 6, 12):
-        cases.append({"kind": "polyline_empty", "v": [], "closed": d % 2 == 0, "d": d})
-    cases.append({"kind": "polyline_ties", "v": [[0.5, 1.5, 2.5], [-0.5, -1.5, 0.125], [0.375, 2.0 ** -20, -0.0]], "closed": True, "d": 0})
-    cases.append({"kind": "polyline_ties", "v": [[0.125, 0.375, 0.625], [-0.125, 2.5, 1.0 / 1024]], "closed": False, "d": 2})
-    cases.append({"kind": "plane_coarse", "ref": [1.0, 2.0, 3.0], "normal": [2.0 / 7, 3.0 / 7, 6.0 / 7], "exact": False, "pd": 6, "dd": 2})
+        cases.append({"kind": "polyline_empty", "v": [], "closed": d % 2 == 0, "d": d, "exact": True})
+    cases.append({"kind": "polyline_ties", "v": [[0.5, 1.5, 2.5], [-0.5, -1.5, 0.125], [0.375, 2.0 ** -20, -0.0]], "closed": True, "d": 0, "exact": True})
+    cases.append({"kind": "polyline_ties", "v": [[0.125, 0.375, 0.625], [-0.125, 2.5, 1.0 / 1024]], "closed": False, "d": 2, "exact": True})
+    cases.append({"kind": "plane_coarse", "ref": [1.0, 2.0, 3.0], "normal": [2.0 / 7, 3.0 / 7, 6.0 / 7], "exact": False, "exact_ref": True, "pd": 6, "dd": 2})
+    cases.append({"kind": "polyline_numpy_bool_closed", "v": [[0.5, 1.0, 2.0]], "closed": True, "closed_np": True, "d": 3, "exact": True})
+    cases.append({"kind": "polyline_near_overflow", "v": [[1.5e295, -2.0 ** 970, 0.0]], "closed": False, "d": 12, "exact": True})
     while len(cases) < n:
         u = rng.random()
         if u < 0.4:
             k = rng.choice([0, 1, 1, 2, 3, 4, 6])
-            cases.append({"kind": "polyline" if k else "polyline_empty", "v": [[_dy20(rng, tier) for _ in range(3)] for _ in range(k)],
-                          "closed": rng.random() < 0.5, "d": rng.randint(0, 12)})
+            d = rng.randint(0, 12)
+            w = rng.random()
+            if k and w < 0.2:
+                cases.append({"kind": "polyline_full_mantissa", "v": [[_full(rng) for _ in range(3)] for _ in range(k)],
+                              "closed": rng.random() < 0.5, "d": d, "exact": False})
+            elif k and w < 0.26:
+                cases.append({"kind": "polyline_near_overflow", "v": [[_near_overflow(rng, d) for _ in range(3)] for _ in range(k)],
+                              "closed": rng.random() < 0.5, "d": d, "exact": True})
+            elif w < 0.34:
+                cases.append({"kind": "polyline_numpy_bool_closed", "v": [[_dy20(rng, tier) for _ in range(3)] for _ in range(k)],
+                              "closed": rng.random() < 0.5, "closed_np": True, "d": d, "exact": True})
+            else:
+                cases.append({"kind": "polyline" if k else "polyline_empty", "v": [[_dy20(rng, tier) for _ in range(3)] for _ in range(k)],
+                              "closed": rng.random() < 0.5, "d": d, "exact": True})
         elif u < 0.7:
             nrm, exact = _unit(rng)
             dd = 6 if rng.random() < 0.35 else rng.randint(0, 12)
+            full_ref = rng.random() < 0.25
             cases.append({"kind": "plane_default_dd" if dd == 6 else ("plane_coarse" if dd < 6 else "plane_fine"),
-                          "ref": [_dy20(rng, tier) for _ in range(3)], "normal": nrm, "exact": exact,
-                          "pd": rng.randint(0, 12), "dd": dd})
+                          "ref": [_full(rng) if full_ref else _dy20(rng, tier) for _ in range(3)], "normal": nrm, "exact": exact,
+                          "exact_ref": not full_ref, "pd": rng.randint(0, 12), "dd": dd})
         elif u < 0.87:
             doc, fault = _corrupt(rng, _valid_polyline_doc(rng, tier), "polyline")
             cases.append({"kind": "doc_polyline_" + fault, "which": "polyline", "doc": doc, "fault": fault})
@@ -236,16 +281,25 @@ def _plain(x):
 
 
 def _validate(cls, doc):
-    import jsonschema
-    try:
-        cls.validate(doc)
-        return True
-    except jsonschema.ValidationError:
-        return False
+    """True / False (= ValidationError) ; any other exception is returned as {"raise": ...} (never aborts the run)"""
+    r = _call(lambda: cls.validate(doc))
+    if isinstance(r, dict) and "raise" in r:
+        return False if r["raise"] == "ValidationError" else r
+    return True
+
+
+def _undecided(vals, d):
+    """number of full-mantissa coordinates within the noise of a rounding tie (judged by the half-unit bound only)"""
+    n = 0
+    for x in vals:
+        y = Fr(float(x)) * 10 ** d
+        if abs((y - (y.numerator // y.denominator)) - Fr(1, 2)) <= Fr(1, 1000) + abs(y) / 10 ** 15:
+            n += 1
+    return n
 
 
 def _poly(p):
-    return {"v": p.v.tolist(), "closed": p.is_closed if isinstance(p.is_closed, bool) else repr(p.is_closed)}
+    return {"v": p.v.tolist(), "closed": bool(p.is_closed) if isinstance(p.is_closed, (bool, np.bool_)) else repr(p.is_closed)}
 
 
 def _plane(p):
@@ -264,39 +318,46 @@ def run_impl(c):
     if k.startswith("polyline"):
         def go():
             v = np.array(c["v"], dtype=np.float64).reshape(-1, 3)
-            p = Polyline(v, is_closed=c["closed"])
+            p = Polyline(v, is_closed=np.bool_(c["closed"]) if c.get("closed_np") else c["closed"])
             o = {"input_v": p.v.tolist()}
-            ser = p.serialize(decimals=c["d"])
-            o["ser"] = ser
+            with np.errstate(all="ignore"):
+                ser = p.serialize(decimals=c["d"])
+            o["ser_repr"] = repr(ser)[:300]
             o["plain"] = _plain(ser)
+            o["ser"] = ser if o["plain"] else None
             o["valid"] = _validate(Polyline, ser)
-            back = json.loads(json.dumps(ser))
-            o["text_same"] = back == ser
-            o["deser"] = call_impl(lambda: _poly(Polyline.deserialize(back)))
-            o["rounded"] = call_impl(lambda: _poly(p.rounded(decimals=c["d"])))
-            o["default_same"] = p.serialize() == p.serialize(decimals=6)
+            back = _call(lambda: json.loads(json.dumps(ser)))
+            o["text_same"] = (back == ser) if not _is_raise(back) else back
+            o["deser"] = _call(lambda: _poly(Polyline.deserialize(back if not _is_raise(back) else ser)))
+            o["rounded"] = _call(lambda: _poly(p.rounded(decimals=c["d"])))
+            with np.errstate(all="ignore"):
+                o["default_same"] = bool(p.serialize() == p.serialize(decimals=6))
             o["unchanged"] = bool(np.array_equal(p.v, v))
+            if not c.get("exact", True):
+                o["undecided_coords"] = _undecided([x for row in o["input_v"] for x in row], c["d"])
             return o
-        return call_impl(go)
+        return _call(go)
     if k.startswith("plane"):
         def go():
             pl = Plane(np.array(c["ref"]), np.array(c["normal"]))
             o = {"ref": pl.reference_point.tolist(), "normal": pl.normal.tolist()}
-            ser = call_impl(lambda: pl.serialize(position_decimals=c["pd"], direction_decimals=c["dd"]))
+            ser = _call(lambda: pl.serialize(position_decimals=c["pd"], direction_decimals=c["dd"]))
             o["ser"] = ser
-            o["rounded"] = call_impl(lambda: _plane(pl.rounded(position_decimals=c["pd"], direction_decimals=c["dd"])))
+            o["rounded"] = _call(lambda: _plane(pl.rounded(position_decimals=c["pd"], direction_decimals=c["dd"])))
             if not (isinstance(ser, dict) and "raise" in ser):
                 o["plain"] = _plain(ser)
                 o["valid"] = _validate(Plane, ser)
                 back = json.loads(json.dumps(ser))
                 o["text_same"] = back == ser
-                o["deser"] = call_impl(lambda: _plane(Plane.deserialize(back)))
+                o["deser"] = _call(lambda: _plane(Plane.deserialize(back)))
+            o["undecided_coords"] = ((0 if c.get("exact_ref", True) else _undecided(o["ref"], c["pd"])) +
+                                     (0 if c["exact"] else _undecided(o["normal"], c["dd"])))
             return o
-        return call_impl(go)
+        return _call(go)
     cls = Polyline if c["which"] == "polyline" else Plane
     doc = c["doc"]
     o = {"accepted": _validate(cls, doc)}
-    o["deser"] = call_impl(lambda: (_poly if cls is Polyline else _plane)(cls.deserialize(json.loads(json.dumps(doc)))))
+    o["deser"] = _call(lambda: (_poly if cls is Polyline else _plane)(cls.deserialize(json.loads(json.dumps(doc)))))
     return o
 
 
@@ -322,7 +383,11 @@ def _is_raise(x):
 
 
 def _res(x, f):
-    return "(Raise %s)" % x["raise"] if _is_raise(x) else "(Ok %s)" % f(x)
+    if _is_raise(x):
+        if x["raise"] == "ValidationError":
+            return "ORefused"
+        return "(ORaise %s)" % (x["raise"] if x["raise"] in EXN else "OtherError")
+    return "(OOk %s)" % f(x)
 
 
 def _opoly(p):
@@ -341,22 +406,24 @@ def coq_case(c, o):
         if _is_raise(o):
             return "CFail"
         p = "(MkPolyline %s %s)" % (coq_list(qv(v) for v in o["input_v"]), coq_bool(c["closed"]))
-        if _is_raise(o["rounded"]) or not o["plain"]:
+        if _is_raise(o["rounded"]) or not o["plain"] or _is_raise(o["valid"]):
             return "CFail"
-        return "CPolyline %s %s %s %s %s %s" % (p, coq_nat(c["d"]), _json_term(o["ser"], fl), coq_bool(o["valid"]),
-                                               _res(o["deser"], _opoly), _opoly(o["rounded"]))
+        return "CPolyline %s %s %s %s %s %s %s" % (coq_bool(c.get("exact", True)), p, coq_nat(c["d"]), _json_term(o["ser"], fl),
+                                                  coq_bool(o["valid"]), _res(o["deser"], _opoly), _opoly(o["rounded"]))
     if k.startswith("plane"):
         if _is_raise(o):
             return "CFail"
         pl = "(MkPlane %s %s)" % (qv(o["ref"]), qv(o["normal"]))
         ser = o["ser"]
-        if not _is_raise(ser) and not o["plain"]:
+        if not _is_raise(ser) and (not o["plain"] or _is_raise(o["valid"])):
             return "CFail"
-        return "CPlane %s %s %s %s %s %s %s %s" % (
-            coq_bool(c["exact"]), pl, coq_nat(c["pd"]), coq_nat(c["dd"]),
-            _res(ser, lambda s: _json_term(s, fl)), coq_bool(o.get("valid", False)),
+        return "CPlane %s %s %s %s %s %s %s %s %s" % (
+            coq_bool(c.get("exact_ref", True)), coq_bool(c["exact"]), pl, coq_nat(c["pd"]), coq_nat(c["dd"]),
+            _res(ser, lambda s: _json_term(s, fl)), coq_bool(o.get("valid", False) is True),
             _res(o.get("deser", {"raise": "OtherError"}), _oplane), _res(o["rounded"], _oplane))
     doc = _json_term(c["doc"], q)
+    if _is_raise(o["accepted"]):
+        return "CFail"
     if c["which"] == "polyline":
         return "CDocPolyline %s %s %s" % (doc, coq_bool(o["accepted"]), _res(o["deser"], _opoly))
     return "CDocPlane %s %s %s" % (doc, coq_bool(o["accepted"]), _res(o["deser"], _oplane))
@@ -374,10 +441,15 @@ def _round_exact(x, d):
 def _check_vec(name, orig, got, d, exact):
     for i, (x, g) in enumerate(zip(orig, got)):
         want, tie = _round_exact(x, d)
-        err = abs(Fr(float(g)) - Fr(float(x)))
-        if err > Fr(1, 2 * 10 ** d) + Fr(1, 10 ** 15) * max(1, abs(Fr(float(x)))):
+        fx, fg = Fr(float(x)), Fr(float(g)) if np.isfinite(g) else None
+        if fg is None:
+            return "%s[%d]: %r rounded to %d decimals is %r" % (name, i, x, d, g)
+        if abs(fg - fx) > Fr(1, 2 * 10 ** d) + Fr(1, 10 ** 15) * max(abs(fx), abs(fg)):
             return "%s[%d]: %r differs from the original %r by more than half a unit of decimal %d" % (name, i, g, x, d)
-        if (exact or tie > Fr(1, 1000)) and abs(Fr(float(g)) - Fr(want)) > Fr(1, 10 ** 15) * max(1, abs(Fr(want))):
+        # exact decimal rounding is demanded wherever it is decided: always when x*10^d is exact in binary64, otherwise
+        # away from the noise of a tie (1e-3 of a unit + 1e-15 relative to the scaled value)
+        decided = exact or tie > Fr(1, 1000) + abs(fx) * 10 ** d / 10 ** 15
+        if decided and abs(fg - Fr(want)) > Fr(1, 10 ** 15) * max(abs(Fr(want)), abs(fg)):
             return "%s[%d]: %r is not %r rounded to %d decimals (%r)" % (name, i, g, x, d, want)
     return None
 
@@ -390,9 +462,11 @@ def oracle(c, o):
         if _is_raise(o):
             return "Polyline.serialize(decimals=%d) raised %s: %s" % (c["d"], o["raise"], o.get("msg"))
         if not o["plain"]:
-            return "serialize returned data that is not plain JSON-compatible: %r" % (o["ser"],)
-        if not o["valid"]:
-            return "serialize's own output does not pass validate: %r" % (o["ser"],)
+            return "serialize returned data that is not plain JSON-compatible: %s" % (o["ser_repr"],)
+        if o["valid"] is not True:
+            return "serialize's own output does not pass validate: %s (%r)" % (o["ser_repr"], o["valid"])
+        if o["text_same"] is not True:
+            return "the serialized document does not survive json.dumps / json.loads: %r" % (o["text_same"],)
         if _is_raise(o["rounded"]):
             return "rounded(%d) raised %s" % (c["d"], o["rounded"]["raise"])
         if _is_raise(o["deser"]):
@@ -410,7 +484,7 @@ def oracle(c, o):
         if not o["default_same"]:
             return "serialize() differs from serialize(decimals=6)"
         for j, (x, g) in enumerate(zip(o["input_v"], r["v"])):
-            f = _check_vec("vertex %d" % j, x, g, c["d"], True)
+            f = _check_vec("vertex %d" % j, x, g, c["d"], c.get("exact", True))
             if f:
                 return f
         return None
@@ -422,12 +496,14 @@ def oracle(c, o):
             return "Plane.serialize(position_decimals=%d, direction_decimals=%d) raised %s: %s" % (pd, dd, o["ser"]["raise"], o["ser"].get("msg"))
         if _is_raise(o["rounded"]):
             return "Plane.rounded(%d, %d) raised %s" % (pd, dd, o["rounded"]["raise"])
-        if not o["plain"] or not o["valid"]:
+        if not o["plain"] or o["valid"] is not True:
             return "serialize's output is not plain JSON data passing validate: %r" % (o["ser"],)
+        if o["text_same"] is not True:
+            return "the serialized document does not survive json.dumps / json.loads"
         r = o["rounded"]
         if o["ser"] != {"referencePoint": r["ref"], "unitNormal": r["normal"]}:
             return "serialized document %r is not the rounded plane" % (o["ser"],)
-        f = _check_vec("reference point", o["ref"], r["ref"], pd, True) or _check_vec("normal", o["normal"], r["normal"], dd, c["exact"])
+        f = _check_vec("reference point", o["ref"], r["ref"], pd, c.get("exact_ref", True)) or _check_vec("normal", o["normal"], r["normal"], dd, c["exact"])
         if f:
             return f
         if dd == 6:   # the round trip is claimed for the default direction precision
@@ -439,6 +515,8 @@ def oracle(c, o):
             return "deserialize(serialize(plane)) = %r, rounded() = %r" % (o["deser"], r)
         return None
     fault = c["fault"]
+    if _is_raise(o["accepted"]):
+        return "validate raised %s instead of accepting or refusing: %s" % (o["accepted"]["raise"], o["accepted"].get("msg"))
     if not o["accepted"] and not _is_raise(o["deser"]):
         return "deserialize built an object from a document that validate refuses: %r" % (c["doc"],)
     if fault in ("missing_key", "extra_key", "non_boolean_isClosed", "bad_vector", "not_an_object") and o["accepted"]:
@@ -449,4 +527,7 @@ def oracle(c, o):
 
 
 def classify(c, o, failure, disagrees):
+    # Polyline(v, is_closed=np.bool_(...)).serialize() carries the numpy scalar into the document
+    if c.get("closed_np") and isinstance(o, dict) and o.get("plain") is False and "isClosed" in o.get("ser_repr", ""):
+        return "is_closed_numpy_bool"
     return None
